@@ -591,6 +591,8 @@ def _build(case):
     from tracklib.core.track_collection import TrackCollection
     from tracklib.core.spatial_index import SpatialIndex
     trs = [gen.make_track([(p[0], p[1], 0.0) for p in t]) for t in case["tracks"]]
+    if len(trs) % 2 == 0:
+        trs = [gen.derive(t, (case["tracks"][k], k))[0] for k, t in enumerate(trs)]
     res = tuple(case["res"]) if case["res"] is not None else None
     if case["kind"] == "net":
         from tracklib.core.network import Network, Node, Edge
